@@ -10,9 +10,10 @@
     context id (tx hash, per-block index) is issued while a context with that id is still
     stored.  It follows from "the context-creating transactions of the history have pairwise
     distinct hashes" ([fresh_history_from_distinct_hashes], Props/C08.v). *)
+From Irismod Require Import Service.Check.
 From Irismod Require Import Service.Model Service.Proofs Service.ProofsHist Service.ProofsEscrow
   Service.ProofsSched Service.ProofsBatch Service.ProofsLiab Service.ProofsTally Service.ProofsLive Service.ProofsModule Service.ProofsFresh
-  Service.ProofsCallback Service.ProofsSchedule Service.ProofsModuleHist.
+  Service.ProofsCallback Service.ProofsSchedule Service.ProofsModuleHist Service.ProofsCheck.
 
 (** Over EVERY history (any list of steps: messages of any kind and content, valid or not, block
     ends with expiry, slashing, refunds and new batches, rate changes, transfers, module
@@ -185,6 +186,26 @@ Theorem reachable_states_satisfy_DepInv :
 Proof. exact DepInv_reachable. Qed.
 Print Assumptions reachable_states_satisfy_DepInv.
 
+(** The model passes its own check, clauses 1 and 2 of [holds_C07] (Service/Check.v).
+    [obs_of univ code newctx cb s] is what the driver would observe of the model state [s]
+    (balances of the accounts/denoms in [univ], bindings, contexts, requests as the same tuples,
+    tallies, queues, markers).  For EVERY history (distinct hashes on context-creating
+    transactions, escrows empty at the start), whatever the previous observation [p] and the step
+    [st]: evaluated on the observation of the state reached, [holds_C07] never answers 1 (deposit
+    escrow <> sum of binding deposits) nor 2 (request escrow <> active fees + earned fees) — the
+    boolean clauses the checker evaluates are re-proved over the observation lists from [DepInv]
+    and [EscInv].  PARTIAL: clauses 3-6 are not covered here (3: see below; 4-6 compare two
+    consecutive observations). *)
+Theorem model_passes_C07_clauses_1_2 :
+  forall c steps h0 t0 l0 univ p st code nc cb,
+    clean l0 -> NoDup (create_txhs steps) ->
+    In (DEP, BASE) univ -> (forall d, In d (denoms c) -> In (REQ, d) univ) ->
+    let s := run c (init h0 t0 l0) steps in
+    let k := holds_C07 c p st (obs_of univ code nc cb s) in
+    k <> 1 /\ k <> 2.
+Proof. exact model_passes_C07_clauses_1_2_lemma. Qed.
+Print Assumptions model_passes_C07_clauses_1_2.
+
 (** ** the hypotheses are satisfiable, the conclusions are not vacuous: a history with a
     time-discounted binding (price 100, half price until t = 2000), a second flat binding
     (60), one call to both, one response, one expiry with slashing *)
@@ -253,3 +274,16 @@ Proof. vm_compute. repeat split; try reflexivity; discriminate. Qed.
 Example c07_fresh_history_satisfiable :
   fresh_history ex_cfg (init 1 1000 ex_l0) ex_hist /\ NoDup (create_txhs ex_hist) /\ NoDup (create_txhs ex_hist_m).
 Proof. split; [apply fresh_historyb_ok; vm_compute; reflexivity|]. split; vm_compute; repeat constructor; simpl; tauto. Qed.
+
+(** the whole checker ([check_all]: correspondence, C07, C08) run on the model's OWN observations
+    of the two example histories answers "no divergence, no violation" *)
+Definition ex_univ : list (Z * Z) := flat_map (fun a => [(a, 0); (a, 1)]) [DEP; REQ; TAX; 0; 1; 2; 3; 4; 5; 6; 7].
+Example c07_model_passes_check_on_examples :
+  clean ex_l0 /\ In (DEP, BASE) ex_univ /\ (forall d, In d (denoms ex_cfg) -> In (REQ, d) ex_univ)
+  /\ check_all (model_case ex_univ ex_cfg 1 1000 ex_l0 ex_hist) = (-1, -1, 0, -1, 0)
+  /\ check_all (model_case ex_univ ex_cfg_m 1 1000 ex_l0 ex_hist_m) = (-1, -1, 0, -1, 0).
+Proof.
+  split; [split; [intros d|]; reflexivity|]. split; [vm_compute; tauto|].
+  split; [intros d Hd; vm_compute in Hd; destruct Hd as [<-|[<-|[]]]; vm_compute; tauto|].
+  split; vm_compute; reflexivity.
+Qed.
